@@ -37,6 +37,7 @@ def main(tier):
     chk.run("R-ENUMCASE", B.enumcase, r, floor=2)
     chk.run("R-NSPARSE", B.nsparse, r, floor=1)
     chk.run("R-SLOTAGREE", B.slotagree, r, floor=20)
+    chk.run("R-HEADERGUARD", B.headerguard, r, floor=1)
     chk.run("R-INTRANGE", RG.intrange, r, parts=('backend',), floor=4)
     chk.run("R-BOUNDARY", RG.boundary, r, only_wider=True, floor=130)
     return chk.finish()
